@@ -352,6 +352,22 @@ def check_c20(tier, seed):
             j["_prog"] = prog["name"]
             j["_timeout"] = max(120, int(60 * wall[prog["name"]] / 1000.0))
             jobs.append(j)
+    # fault: an initialisation step fails (a program without a main package makes the pointer analysis step return
+    # an error while the other steps are still running); the analyser must still join all its goroutines
+    nfail = 0
+    for pi, prog in enumerate(cands[: (6 if tier == "quick" else 40)]):
+        bad = dict(prog, name=prog["name"] + "-nomain",
+                   text=prog["text"].replace("package main", "package notmain", 1).replace("func main() {", "func Main() {", 1))
+        for si in range(3 if tier == "quick" else 8):
+            opts = {"log-level": rng.pick([1, 3])}
+            if rng.chance(50):
+                opts["report-summaries"] = True
+            p = sysa.swarm_params(rng)
+            j = sysa.make_job(len(jobs), rng.pick(["taint", "backtrace"]), bad, opts, p)
+            j["_prog"] = bad["name"]
+            j["_timeout"] = 120
+            jobs.append(j)
+            nfail += 1
     if tier == "thorough":
         for name, _ in sysa.CORPUS[:6]:
             prog = sysa.corpus_program(name)
@@ -409,6 +425,7 @@ def check_c20(tier, seed):
             report_violation(rep, binary, "C20", j, sig, pred, "analyser-%d" % j["id"])
     cov = st.coverage(RULE_A, {"mapparallel_runs": mappar_runs, "analyser_runs": st.runs - mappar_runs,
                                "report_completeness_checked": complete_checked,
+                               "runs_with_a_failing_initialisation_step": nfail,
                                "programs_dropped_because_the_analyser_is_too_slow_on_them": dropped_slow,
                                "runs_per_hour": int(st.runs / max(1e-9, time.time() - t0) * 3600),
                                "seeds": [seed]})
@@ -729,7 +746,8 @@ def check_c05(tier, seed):
         {"pkg-filter": "m/lib"}, {"pkg-filter": "^m/"},
         {"pkg-filter": "main", "summarize-on-demand": True}, {"summarize-on-demand": True, "report-summaries": True},
     ]
-    alarms = [{"max-alarms": 1}, {"max-alarms": 2}, {"max-alarms": 1, "summarize-on-demand": True}]
+    alarms = [{"max-alarms": 1}, {"max-alarms": 2}, {"max-alarms": 3}, {"max-alarms": 1, "summarize-on-demand": True},
+              {"max-alarms": 2, "summarize-on-demand": True}]
     counts = collections.Counter()
     refs = []
     for prog in progs:
